@@ -1,5 +1,6 @@
 """C03 — fusion operators compute the evidence combination they are defined as."""
 from .. import gen as G
+from .C07 import close_pair_lines
 from .common import TRUSTED, ASSUMPTIONS, default_nontrivial, LEVEL_NOTE, TECHNIQUE
 
 LEVEL = "proof"
@@ -7,7 +8,11 @@ THEOREMS = ['C03_refines_spec', 'C03_acm_evidence', 'C03_avg_evidence', 'C03_wgh
 RULE = ("fuse / fuse_os / fuse_ss for the 4 operators: guard lattice (vacuous, dogmatic, tolerance-edge vacuous u=1-k*eps/2, "
         "tolerance-edge dogmatic, interior; base rates different / equal / within a few ulps / one shared object), dyadic grids "
         "(exhaustive den 4 for n=2,3 in thorough; random up to 1/64), uncertainty sweeps 1e-300..1e-3 and 1-1e-3..1-2^-52, "
-        "arbitrary floats; n=1..4; families A/M/D/N, styles o/r/asg; f32+f64. non-trivial = value returned, not both operands vacuous")
+        "arbitrary floats; base rates closer than ulps_eq! resolves (a small entry differing by eps/4..eps absolutely = up to 6 % of the entry, "
+        "or an ordinary entry differing by 1..4 ulps; ECm mostly on operands where that state decides the maximal uncertainty, so that a "
+        "base rate off by per cents shows in the uncertainty); n=1..4; families A/M/D/N, styles o/r/asg; f32+f64; ECm with base rates whose float sum is 1+k*eps, k=-2..4 "
+        "(shared / aliased / equal / different base rates, 1-D and 2-D / 3-D families up to 8 cells, variant token acc). "
+        "non-trivial = value returned, not both operands vacuous")
 EXHAUSTIVE = {}
 LEVEL_TEXT = ("Theorem: on well-formed rational operands outside the tolerance bands the model's fuse equals the executable evidence-space "
               "specification SLV.Oracle.fuseSpec (Dirichlet evidence added / averaged / confidence-weighted; one dogmatic operand decides; "
@@ -92,12 +97,20 @@ def cases(rng, tier):
             n = rng.choice([2, 3, 4])
             w = G.rand_opinion(rng, n, rng.choice([4, 8, 16, 64]), rng.choice(["int", "int", "any", "dog", "vac"]))
             out.append(G.line("fuse", fmt, rng.choice(G.FAMS_1D) + "." + rng.choice(["o", "r"]) + ".alias", [n, rng.randint(0, 3), 0], w + w))
+        # base rates closer than `ulps_eq!` resolves: a small entry (outside the (0, eps] band) differing by at most eps absolutely, i.e. by
+        # per cents of the entry, or an ordinary entry differing by 1..4 ulps (the per-entry shortcut of compute_base_rate before
+        # repairs c0b2ed5 / c8a7116 fired on these); ECm mostly on operands where that state decides the maximal uncertainty
+        out += close_pair_lines(rng, fmt, N // 6)
         for _ in range(N // 10):
             n = rng.choice([1, 2, 3])
             b1, u1, _ = G.guard_operand(rng, fmt, n)
             b2, u2, _ = G.guard_operand(rng, fmt, n)
             out.append(G.line("fuse_ss", fmt, rng.choice(G.FAMS_1D) + rng.choice([".o", ".o.asg"]),
                               [n, rng.randint(0, 3)], b1 + [u1] + b2 + [u2]))
+    # ECm under base rates whose float sum is 1 + k*eps, k in -2..4 (accepted by the constructors; the maximised simplex is
+    # renormalised since repair f029db5), compared with the evidence-space specification like every other case
+    for fmt in ("f64", "f32"):
+        out += G.band_ecm_cases(rng, fmt, (1500 if tier == "quick" else 40000) // 10)
     return out
 
 
